@@ -843,6 +843,10 @@ func evalUpdateExpression(node *UpdateExpression, env *Environment) Object {
 		if isError(values[i]) {
 			return values[i]
 		}
+
+		// the assigned value is a copy: a later action that modifies the source in place
+		// (ADD, DELETE, SET or REMOVE of an element) must not change it
+		values[i] = cloneObject(values[i])
 	}
 
 	for i, act := range node.Expressions {
@@ -855,6 +859,22 @@ func evalUpdateExpression(node *UpdateExpression, env *Environment) Object {
 	env.Compact()
 
 	return UNDEFINED
+}
+
+// cloneObject returns a deep copy of an attribute value object
+func cloneObject(obj Object) Object {
+	if obj == nil || isUndefined(obj) || isError(obj) {
+		return obj
+	}
+
+	item := obj.ToDynamoDB()
+
+	clone, err := MapToObject(&item)
+	if err != nil {
+		return obj
+	}
+
+	return clone
 }
 
 func evalActionSet(node *ActionExpression, val Object, env *Environment) Object {
